@@ -11,17 +11,19 @@ func TestProp(t *testing.T) {
 	defer r.Finish()
 	r.Rule("generated schemas x documents that are valid by construction, valid with one rule-targeted mutation in the reachable part, or token-level mutants labelled by gqlparser; admission = Normalize (Execute option set) then ValidateForSchema; non-trivial = every mutant, and valid documents with >= 3 distinct constructs; distinct by (schema, document, variables)")
 	r.Assume("gqlparser v2.5.30 validator (graphql-js port) is the spec reading; a case counts only when the construction label and gqlparser agree; token-level mutants are labelled by gqlparser alone (verdict fixed per input; disagreement classes on the unchanged tree were triaged once)")
+	r.Rule("history part: 2-5 documents (valid, normalization-aborting mutants, variable-rule mutants, other mutants) admitted in sequence by one set of long-lived normalizer/validator/mapper instances; oracle: each outcome equals the outcome on fresh instances; non-trivial = history containing a refused document")
 	r.Regress(dispatch())
 	r.RunProbes(probes())
 	validPart.Run(r)
 	mutantPart.Run(r)
 	tokenPart.Run(r)
+	reusePart.Run(r)
 }
 
 func TestReplay(t *testing.T) { pbt.StdReplay(t, "C04", dispatch()) }
 
 func dispatch() pbt.Dispatch {
-	return pbt.Dispatch{}.Add(validPart.Name, validPart.Handler()).Add(mutantPart.Name, mutantPart.Handler()).Add(tokenPart.Name, tokenPart.Handler()).WithProbes(probes())
+	return pbt.Dispatch{}.Add(validPart.Name, validPart.Handler()).Add(mutantPart.Name, mutantPart.Handler()).Add(tokenPart.Name, tokenPart.Handler()).Add(reusePart.Name, reusePart.Handler()).WithProbes(probes())
 }
 
 func TestMinimize(t *testing.T) {
